@@ -271,13 +271,15 @@ func exploreBFS(c *vx.Ctx, props string, seeds []int, depth int, alpha []string,
 		frontier = append(frontier, node{sd, nil})
 	}
 	// Seeds that the script never passes through: split votes (a vote majority present without consensus).
-	if withSplitSeeds {
+	if withSplitSeeds && len(seeds) > 1 {
 		frontier = append(frontier, node{7, []string{"V:c:3:nil"}}, node{4, []string{"V:p:3:nil"}})
 		// ... and: split precommits (the state machine's precommit-delay timer runs), the state machine not reading,
 		// the network already voting in the next round (the mirror jumps, a jump-ahead signal is pending).
 		frontier = append(frontier, node{7, []string{"V:c:3:nil", "StallS", "V:p:h:A@0,1"}})
 		// ... and then the network leaves that round too (nil precommits) while the jump-ahead is still unread.
 		frontier = append(frontier, node{7, []string{"V:c:3:nil", "StallS", "V:p:h:A@0,1", "V:c:h:nil@0,1"}})
+	}
+	if withSplitSeeds {
 		// ... and: a height committed with the Byzantine validator's precommit instead of the local validator's (the
 		// committing view then still lacks an honest precommit that the next height's proposal will backfill), alone
 		// and with the Byzantine validator's nil precommit for the same round on top (two targets in the committing view).
